@@ -40,9 +40,9 @@ func init() {
 		Controls: []string{"CtlUnguardedDivisor"},
 		Run:      func(c *Ctx) { ruleErr5(c, nil) }})
 	Register(&Rule{ID: "R-ERR-7", Props: []string{"C19"}, Floor: 200,
-		Doc: "arguments of library operations with a panicking precondition are guarded: the len/cap of every make([]T, …), the count of strings.Repeat/bytes.Repeat (≥ 0 and bounded above), the argument of rand.Intn/Int63n (> 0). " +
+		Doc: "arguments of library operations with a panicking precondition are guarded: the len/cap of every make([]T, …), the count of strings.Repeat/bytes.Repeat (≥ 0 and bounded above), the argument of rand.Intn/Int63n (> 0), the precision of strconv.FormatFloat/AppendFloat and big.Float.Text/Append (bounded above: it is the number of digits written) and the argument of Builder/Buffer/slices.Grow (≥ 0 and bounded). " +
 			"A non-constant argument must evaluate to an interval with the required lower bound and a finite upper bound; values of unknown magnitude get bounds only from a dominating comparison of the argument value itself (a guard on its operands is not enough: `high <= low` does not protect `high - low + 1` from overflow)" + e19BoundsAssumption,
-		Controls: []string{"CtlRepeatUnguarded", "CtlMakeOverflow", "CtlRandUnguarded"},
+		Controls: []string{"CtlRepeatUnguarded", "CtlMakeOverflow", "CtlRandUnguarded", "CtlPrecUnbounded", "CtlGrowUnbounded"},
 		Run:      func(c *Ctx) { ruleErr7(c, nil) }})
 	Register(&Rule{ID: "R-ERR-9", Props: []string{"C19"}, Floor: 20,
 		Doc: "every index or slice bound of the form `n - c` (c > 0 constant) in hand-written, non-interactive csvq code is non-negative where it is used (for x[k:n-c] also n - c ≥ k): n ≥ c follows from a dominating test of n, from `0 < len(x)`-style tests of the same slice, from the construction of the slice (literal, append, make) or from a field invariant" + e19BoundsAssumption +
@@ -305,6 +305,25 @@ var e19RandCallees = map[string]bool{
 	"(*math/rand.Rand).Int63n": true, "(*math/rand.Rand).Intn": true, "(*math/rand.Rand).Int31n": true,
 }
 
+// e19OutputSizeArgs: library operations that produce as many bytes as an int
+// argument says (besides make and Repeat): the argument needs an upper bound,
+// or a user-chosen number ends the process with "fatal error: out of memory",
+// which no recover() catches. arg counts the SSA arguments (receiver first).
+var e19OutputSizeArgs = map[string]struct {
+	arg   int
+	name  string
+	lo    float64
+	fails string
+}{
+	"strconv.FormatFloat":      {2, "prec", math.Inf(-1), "strconv writes prec digits: a huge precision ends in \"fatal error: out of memory\" (not recoverable)"},
+	"strconv.AppendFloat":      {3, "prec", math.Inf(-1), "strconv writes prec digits: a huge precision ends in \"fatal error: out of memory\" (not recoverable)"},
+	"(*math/big.Float).Text":   {2, "prec", math.Inf(-1), "big.Float.Text writes prec digits: a huge precision ends in \"fatal error: out of memory\""},
+	"(*math/big.Float).Append": {3, "prec", math.Inf(-1), "big.Float.Append writes prec digits: a huge precision ends in \"fatal error: out of memory\""},
+	"(*strings.Builder).Grow":  {1, "n", 0, "panic \"strings.Builder.Grow: negative count\" / out of memory"},
+	"(*bytes.Buffer).Grow":     {1, "n", 0, "panic \"bytes.Buffer.Grow: negative count\" / bytes.ErrTooLarge"},
+	"slices.Grow":              {1, "n", 0, "panic \"cannot be negative\" / out of memory"},
+}
+
 // e19Diff is a subtraction inside a size expression and the point where its
 // operands are alive (the use, or the call site that passes it to a helper).
 type e19Diff struct {
@@ -521,11 +540,13 @@ func ruleErr7(c *Ctx, scope func(*ssa.Function) bool) {
 			leaf = "; it is not size-derived because of " + valueLabel(f) + " (" + c.P.InstrPos(e19InstrOf(f)) + ")"
 		}
 		a := e.Eval(v, at, core.KInt)
-		keyLo := seq.key(c, e19KeyFn(c, fn), what+fmt.Sprintf(" ≥ %d", int(lo)))
-		if a.Bot || a.Lo >= lo {
-			c.Ok(keyLo, c.Pos(at), "argument ∈ "+e19FmtAV(a))
-		} else {
-			c.Bad(keyLo, c.Pos(at), fmt.Sprintf("the argument %s evaluates to %s: nothing that dominates this call shows it ≥ %d (a test of its operands does not survive overflow)%s — %s", valueLabel(v), e19FmtAV(a), int(lo), leaf, panicText))
+		if !math.IsInf(lo, -1) { // lo = -∞: the operation accepts every negative argument (strconv's precision: "shortest")
+			keyLo := seq.key(c, e19KeyFn(c, fn), what+fmt.Sprintf(" ≥ %d", int(lo)))
+			if a.Bot || a.Lo >= lo {
+				c.Ok(keyLo, c.Pos(at), "argument ∈ "+e19FmtAV(a))
+			} else {
+				c.Bad(keyLo, c.Pos(at), fmt.Sprintf("the argument %s evaluates to %s: nothing that dominates this call shows it ≥ %d (a test of its operands does not survive overflow)%s — %s", valueLabel(v), e19FmtAV(a), int(lo), leaf, panicText))
+			}
 		}
 		if !needUpper {
 			return
@@ -557,6 +578,10 @@ func ruleErr7(c *Ctx, scope func(*ssa.Function) bool) {
 					case e19RandCallees[n]:
 						args := x.Common().Args
 						check(fn, x, n+" n", args[len(args)-1], 1, false, "panic \"invalid argument to "+n[strings.LastIndex(n, ".")+1:]+"\"")
+					default:
+						if sz, ok := e19OutputSizeArgs[n]; ok && sz.arg < len(x.Common().Args) {
+							check(fn, x, n+" "+sz.name, x.Common().Args[sz.arg], sz.lo, true, sz.fails)
+						}
 					}
 				}
 			}
